@@ -24,6 +24,10 @@ pub struct CrashCase {
     /// nested crash points inside the recovery of each sampled image (0 = none)
     #[serde(default)]
     pub nested: u32,
+    /// run checkpoints also while a session has uncommitted writes (crash points that the open finding about such
+    /// checkpoints makes incomparable are skipped); false in cases recorded before this existed
+    #[serde(default)]
+    pub flush_with_open_writer: bool,
 }
 
 pub type Files = BTreeMap<String, Vec<u8>>;
@@ -166,6 +170,10 @@ pub struct Mark {
     /// sessions with uncommitted writes are open after this step
     pub open_writers: bool,
     pub had_noncommit: bool,
+    /// a session that was checkpointed while it had uncommitted writes is still open, or ended without commit
+    /// (open finding F-C02-checkpoint-with-open-writer: from here on images are not comparable)
+    #[allow(dead_code)]
+    pub tainted: bool,
 }
 
 /// Runs the workload, recording I/O. Returns (events, marks, interpreter failure if the live run itself diverged).
@@ -181,7 +189,10 @@ pub fn record(c: &CrashCase) -> Result<(Vec<IoEvent>, Vec<Mark>, Vec<String>, Ve
     };
     it.check_state_every_step = false;
     it.check_outputs = true;
-    let mut marks = vec![Mark { event_idx: axmosdb::verif::io::event_count(), committed: it.model.committed.clone(), desc: "database created".into(), tags: vec![], open_writers: false, had_noncommit: false }];
+    it.allow_flush_with_open_writer = c.flush_with_open_writer;
+    let mut tainted: std::collections::BTreeSet<u8> = Default::default();
+    let mut unresolved = false;
+    let mut marks = vec![Mark { event_idx: axmosdb::verif::io::event_count(), committed: it.model.committed.clone(), desc: "database created".into(), tags: vec![], open_writers: false, had_noncommit: false, tainted: false }];
     let mut live_fail = None;
     for (i, st) in c.steps.iter().enumerate() {
         if !it.db.usable() {
@@ -190,12 +201,27 @@ pub fn record(c: &CrashCase) -> Result<(Vec<IoEvent>, Vec<Mark>, Vec<String>, Ve
         if matches!(st, Step::Reopen(_)) {
             continue; // crash histories never close cleanly
         }
+        let writers_before: Vec<u8> = it.txns.iter().filter(|(_, t)| t.wrote).map(|(s, _)| *s).collect();
+        let flushes_before = it.transcript.iter().filter(|l| l.ends_with("flush")).count();
         if let Some(f) = it.step(i, st) {
             live_fail = Some(f);
             break;
         }
+        if matches!(st, Step::Flush) && it.transcript.iter().filter(|l| l.ends_with("flush")).count() > flushes_before {
+            tainted.extend(writers_before.iter().copied());
+        }
+        for s in tainted.clone() {
+            if !it.txns.contains_key(&s) {
+                tainted.remove(&s);
+                let committed = matches!(st, Step::Commit(x) if *x == s) && it.last_step_kind == "commit_path";
+                if !committed {
+                    unresolved = true;
+                }
+            }
+        }
         let desc = it.transcript.last().cloned().unwrap_or_default();
         marks.push(Mark {
+            tainted: unresolved || !tainted.is_empty(),
             event_idx: axmosdb::verif::io::event_count(),
             committed: it.model.committed.clone(),
             desc,
@@ -303,6 +329,12 @@ pub fn run_crash(c: &CrashCase) -> CrashReport {
         }
         let acked = &marks[mark_i];
         let inflight = marks.get(mark_i + 1);
+        if acked.tainted || inflight.map(|m| m.tainted).unwrap_or(false) {
+            if excluded.contains_key("admin.flush_with_open_writer") {
+                out.excluded.push("admin.flush_with_open_writer".into());
+                continue;
+            }
+        }
         let a = state_as_observed(&acked.committed);
         let a_next = inflight.map(|m| state_as_observed(&m.committed));
         out.evals += 1;
